@@ -98,7 +98,8 @@ def s_scenarios(tier):
     from . import c10
 
     want = ["reselect,noop|expunge", "re-examine,noop|move", "expunge|noop", "expunge|fetch3", "expunge|store2", "expunge|search", "move1|fetch3",
-            "move1|fetchall slow reader", "expunge|fetchall slow reader", "append|fetchflags"]
+            "move1|fetchall slow reader", "expunge|fetchall slow reader", "append|fetchflags",
+            "expunge|capability,noop slow reader", "expunge|lsub,noop slow reader"]
     by = {sc["name"]: sc for sc in c10.scenarios(tier)}
     return [by[n] for n in want if n in by]
 
@@ -116,7 +117,7 @@ def run(tier, seed, jobs) -> Result:
         ("C01",), jobs, seed,
         [
             "2 sessions (A read-write, B read-write/EXAMINE/IDLE), INBOX with 0 or 2 (thorough: 3) messages, one destination mailbox",
-            "H part: commands strictly sequential (default schedule); S part: ten two-session scenarios (shared with C10) under every schedule with "
+            "H part: commands strictly sequential (default schedule); S part: twelve two-session scenarios (shared with C10) under every schedule with "
             "<=2 (thorough 3) deviations, incl. a peer that reads slowly; only the C01 stream rules are reported from it",
             "external deliveries are whole-message events between commands; the folder mtime advances with each delivery",
             "IDLE entry/exit is not required to notice a delivery no session was told about yet (it does not look at the folder); "
